@@ -137,8 +137,8 @@ class Exec:
             if s is None:
                 return []
             from .aworld import HandlerCall
-            self.echo_n += 1
-            reply = 'S%d.%d~farewell' % (s.ord, 100000 + self.echo_n)
+            # (a tag that does not depend on the order in which sessions end)
+            reply = 'S%d.200000~farewell' % s.ord
             rec = HandlerCall('send', (sid, reply), self.now)
             rec.sess = s
             s.app_sent.append({'t': self.now, 'tag': find_tag(reply), 'data': reply, 'call': rec,
